@@ -152,26 +152,33 @@ Definition simp_stats (cs : list mysql_case) : nat * nat * nat :=
                           else (r, f, k)) cs (0, 0, 0)%nat.
 
 (* ---------- theorem coverage before / after widening the hypotheses ---------- *)
-(* ModifyColumn* actions on existing columns that replay: (total, under the hypothesis of C04_modify_restates_all,
-   in the class C04-comment-lost-on-modify, of which THE IMPLEMENTATION's statements for that action contain a
-   MODIFY COLUMN without a COMMENT clause) *)
+(* ModifyColumn* actions on existing columns that replay: [total; under the hypothesis of C04_modify_restates_all;
+   in the (fixed) class C04-comment-lost-on-modify; of which THE IMPLEMENTATION's statements for that action contain a
+   MODIFY COLUMN without a COMMENT clause (0 since fix N1); on an auto-increment key column whose new type supports
+   AUTO_INCREMENT; of which the implementation's MODIFY COLUMN carries AUTO_INCREMENT (all since fix N1)] *)
 Definition modify_without_comment (st : list stmt) : bool :=
   existsb (fun x => match x with SModifyColumn _ d => is_none (cd_comment d) | _ => false end) st.
-Fixpoint modify_all_stats (s : schema) (acts : list action) (impl : list (list stmt)) : nat * nat * nat * nat :=
+Definition modify_with_auto (st : list stmt) : bool :=
+  existsb (fun x => match x with SModifyColumn _ d => cd_auto d | _ => false end) st.
+Fixpoint modify_all_stats (s : schema) (acts : list action) (impl : list (list stmt)) : list nat :=
   match acts with
-  | [] => (0, 0, 0, 0)%nat
+  | [] => [0; 0; 0; 0; 0; 0]%nat
   | a :: r =>
-      let '(n, h, l, w) := modify_all_stats (step s a) r (tl impl) in
+      let rest := modify_all_stats (step s a) r (tl impl) in
       match modify_target a with
       | Some (t, c) =>
           match lookup_column s t c, apply_action s a with
           | Some col, Ok _ =>
               let lost := p_comment_lost s a in
-              (S n, if modify_all_hyp s a t c col then S h else h, if lost then S l else l,
-               if (lost && modify_without_comment (hd [] impl))%bool then S w else w)
-          | _, _ => (n, h, l, w)
+              let auto := (is_auto_col s t c && supports_auto_increment (c_type (after_col a col)))%bool in
+              let b2n := fun b : bool => if b then 1%nat else 0%nat in
+              map (fun p => (fst p + snd p)%nat)
+                  (combine rest [1%nat; b2n (modify_all_hyp a col); b2n lost;
+                                 b2n (lost && modify_without_comment (hd [] impl))%bool;
+                                 b2n auto; b2n (auto && modify_with_auto (hd [] impl))%bool])
+          | _, _ => rest
           end
-      | None => (n, h, l, w)
+      | None => rest
       end
   end.
 (* actions of a plan under the lemmas proved up to round 3 *)
@@ -180,7 +187,7 @@ Fixpoint sim_stats_plan_r3 (s : schema) (acts : list action) : nat * nat :=
   | [] => (0, 0)%nat
   | a :: r => let '(n, k) := sim_stats_plan_r3 (step s a) r in (S n, if sim_proved_for_r3 s a then S k else k)
   end.
-(* ((modify total, under restates_all, comment-lost, confirmed on the implementation's SQL),
+(* ((the six numbers of modify_all_stats),
     (actions of judged migrations under a lemma BEFORE, judged migrations proved as a whole BEFORE,
      DeleteColumn actions: total / before / after, RenameColumn actions: total / before / after);
    cover_stats appends: judged migrations outside every known class, of which proved as a whole BEFORE / AFTER *)
@@ -211,8 +218,7 @@ Definition whole_proved_r3 (c : mysql_case) : bool :=
 Definition cover_stats (cs : list mysql_case) : list nat :=
   fold_left (fun acc c =>
                let impl := match mc_impl c with IOk l => l | _ => [] end in
-               let '(n, h, l, w) := modify_all_stats (mc_base c) (mc_actions c) impl in
-               let m := [n; h; l; w] in
+               let m := modify_all_stats (mc_base c) (mc_actions c) impl in
                let j := if judged (mc_base c) (mc_actions c)
                         then let '(a, k) := sim_stats_plan_r3 (mc_base c) (mc_actions c) in
                              let '((d, db, da), (rn, rb, ra)) := kind_stats (mc_base c) (mc_actions c) in
@@ -222,4 +228,4 @@ Definition cover_stats (cs : list mysql_case) : list nat :=
                               if (o && whole_proved c)%bool then 1 else 0]%nat
                         else [0; 0; 0; 0; 0; 0; 0; 0; 0; 0; 0]%nat in
                map (fun p => (fst p + snd p)%nat) (combine acc (m ++ j)))
-            cs [0; 0; 0; 0; 0; 0; 0; 0; 0; 0; 0; 0; 0; 0; 0]%nat.
+            cs [0; 0; 0; 0; 0; 0; 0; 0; 0; 0; 0; 0; 0; 0; 0; 0; 0]%nat.
